@@ -49,6 +49,13 @@ type SeqCase struct {
 	// value that counts is the one of the previous output passed to that very Execute call, not
 	// one recorded on the transaction object or left there by an earlier call
 	AmountOff []int64 `json:"amount_off,omitempty"`
+	// Edits[k] (k >= 1) is applied to the one transaction object, in place, before verification k:
+	// 1 first output's value + 1, 2 lock time ^ 1, 3 version + 1, 4 the verified input's sequence
+	// number ^ 1, 5 another input's sequence number ^ 1, 6 last output's script gets OP_NOP appended,
+	// 7 the verified input's outpoint index ^ 1. The signatures were made for the transaction as
+	// generated; what they are worth afterwards is what the rules say about the transaction as it
+	// stands (a digest, mid-hash or verdict kept per object would say something else).
+	Edits []int `json:"edits,omitempty"`
 }
 
 func checkSeq(ctx *pbt.Ctx, c SeqCase) error {
@@ -64,6 +71,8 @@ func checkSeq(ctx *pbt.Ctx, c SeqCase) error {
 		}
 	}
 	m := c.Tx
+	m.In = append([]ref.In{}, c.Tx.In...)
+	m.Out = append([]ref.Out{}, c.Tx.Out...)
 	tx := ref.ToLib(m)
 	before := append([]byte{}, tx.Bytes()...)
 	eng := interpreter.NewEngine()
@@ -73,7 +82,43 @@ func checkSeq(ctx *pbt.Ctx, c SeqCase) error {
 		_ = eng.Execute(interpreter.WithScripts(bscript.NewFromBytes([]byte{0x00, 0x69}), one))
 	}
 	accepts, seen := 0, map[int]bool{}
+	sharedLock, lockBuf := &bscript.Script{}, []byte(nil)
 	for k, i := range c.Order {
+		if k >= 1 && k < len(c.Edits) && c.Edits[k] != 0 {
+			j := (i + 1) % n
+			switch c.Edits[k] {
+			case 1:
+				if len(m.Out) > 0 {
+					m.Out[0].Sats++
+					tx.Outputs[0].Satoshis++
+				}
+			case 2:
+				m.LockTime ^= 1
+				tx.LockTime ^= 1
+			case 3:
+				m.Version++
+				tx.Version++
+			case 4:
+				m.In[i].Seq ^= 1
+				tx.Inputs[i].SequenceNumber ^= 1
+			case 5:
+				m.In[j].Seq ^= 1
+				tx.Inputs[j].SequenceNumber ^= 1
+			case 6:
+				if l := len(m.Out); l > 0 {
+					m.Out[l-1].Script = append(append(pbt.Hex{}, m.Out[l-1].Script...), 0x61)
+					*tx.Outputs[l-1].LockingScript = append(*tx.Outputs[l-1].LockingScript, 0x61)
+				}
+			case 7:
+				m.In[i].Vout ^= 1
+				tx.Inputs[i].PreviousTxOutIndex ^= 1
+			default:
+				ctx.Discard("malformed case")
+				return nil
+			}
+			before = append(before[:0], tx.Bytes()...)
+			ctx.Labelf("edit_between_verifications=%d", c.Edits[k])
+		}
 		p := c.Progs[i]
 		flags := interp.Flags(p.Flags)
 		if c.SameFlags {
@@ -90,6 +135,17 @@ func checkSeq(ctx *pbt.Ctx, c SeqCase) error {
 			return nil
 		}
 		lockObj := bscript.NewFromBytes(append([]byte{}, p.Lock...))
+		if len(c.Order)%3 == 0 { // one script object and one buffer serve every verification, refilled in place
+			if cap(lockBuf) < len(p.Lock) {
+				lockBuf = make([]byte, 0, 2*len(p.Lock)+64)
+			}
+			lockBuf = append(lockBuf[:0], p.Lock...)
+			*sharedLock = lockBuf[:len(p.Lock):len(p.Lock)]
+			lockObj = sharedLock
+			if k > 0 {
+				ctx.Label("spent_script_object_refilled")
+			}
+		}
 		rec := &libexec.Recorder{}
 		var execErr error
 		var panicked any
@@ -199,6 +255,11 @@ func genSeqCase(t *rapid.T) SeqCase {
 	if rapid.IntRange(0, 2).Draw(t, "amount_off") == 0 {
 		for range c.Order {
 			c.AmountOff = append(c.AmountOff, rapid.SampledFrom([]int64{0, 0, 1, -1, 1000, 1 << 32}).Draw(t, "amount_off_v"))
+		}
+	}
+	if rapid.IntRange(0, 2).Draw(t, "edits") == 0 {
+		for range c.Order {
+			c.Edits = append(c.Edits, rapid.SampledFrom([]int{0, 1, 2, 3, 4, 5, 6, 7}).Draw(t, "edit_v"))
 		}
 	}
 	return c
